@@ -350,6 +350,20 @@ def finish(prop, tier, t0, cov, violations, known, broken):
         broken += rbroken
         for pred, detail, path in rviol:
             violations.append(({"op": "readrace", "pre": "", "field": pred, "want": "", "got": str(detail)[:300], "cfg": None}, path))
+    if prop == "C06" and not broken:
+        # the expiration sweep races a read that extends the deadline, the sweeper parked between the wheel's test and the removal
+        # (ExpireRace.tla model-checked; its counterexample as a gated schedule on the real cache, judged by SweepHist.tla)
+        import c13check
+        mcs = []
+        rn, rviol, rbroken = c13check.read_race_half(prop, tier, mc_out=mcs)
+        cov["gated_read_race_scenarios"] = rn
+        cov["traces_validated_against_impl"] += rn
+        cov["expire_race_mc"] = mcs
+        cov["states"] += sum(m["distinct"] for m in mcs)
+        cov["transitions"] += sum(m["generated"] for m in mcs)
+        broken += rbroken
+        for pred, detail, path in rviol:
+            violations.append(({"op": "readrace", "pre": "", "field": pred, "want": "", "got": str(detail)[:300], "cfg": None}, path))
     if prop == "C19" and not broken:
         # saving while drain tasks handed to the executor are still pending (SaveHist.tla)
         sn, sviol, sbroken = save_pending_half(prop, tier)
